@@ -13,6 +13,8 @@ NAR_DEV_UTILS = {
         "src/str_processing/x_fix_match/suffix_match.rs": "ecfeaff6b68c9ca8f8818efab933b7fe265578d02a6615b2c434f33696d24937",
         "src/str_processing/x_fix_match/bi_fix_dict.rs": "53e63db2a7fb8a7f712bf1e6b7d4171c05a29431547107d867834f956db502d3",
         "src/str_processing/x_fix_match/traits.rs": "7e708da8a981aae915677ac92303d80e4e787c51940841914a31ae460bbbfdf5",
+        "src/str_processing/x_fix_match/std_boost.rs": "fa6176380bc8de60ce6a48c500e2c0309c7e4cbfa7143d2c51a3823fa9d80e0d",
+        "src/str_processing/char_slices.rs": "bfc6655a4d05cfefbdaeb95c8f1a66bd9657f6b3b7fa8f91d3069b99ded11d1f",
         "src/str_processing/join.rs": "274fa3ab05b09be5d3990b88b96d68abe1c573be8e3230fd71e16a01422478a5",
     },
     "summaries": {
@@ -21,6 +23,9 @@ NAR_DEV_UTILS = {
         "ZeroOneFloat::validate_01": "self.try_validate_01().unwrap()  -- floats.rs (panics iff try_validate_01 is Err)",
         "ResultBoost::transform": "match self { Ok(ok) => Ok(f_ok(ok)), Err(e) => Err(f_err(e)) }  -- opt_res_boost/result.rs",
         "XFixMatchDict iteration": "sorted ascending on insert (dedup), iter_x_fixes() = reversed => descending lexicographic; prefix/suffix match = first hit  -- x_fix_dict.rs, traits.rs",
+        "StartsWithStr::starts_with_str ([char])": "needle empty => true; slice empty => false; else walks the SLICE and compares with needle chars, returning true when "
+                                                   "either runs out: true for `needle is a prefix of slice` AND for `slice is a proper prefix of needle`  -- std_boost.rs",
+        "char_slice_has_prefix / _suffix": "String::from_iter(slice).starts_with(prefix) / ends_with(suffix): full matches  -- char_slices.rs (used by match_prefix_char_slice / match_suffix_char_slice, traits.rs)",
         "SuffixMatchDictPair": "kept sorted descending by suffix, insert drops an entry whose suffix already exists  -- suffix_match.rs",
     },
 }
